@@ -30,7 +30,7 @@ let sim (path : ostring) (out : ostring) : unit =
   let flush_scn verdict =
     let tr = List.rev !cur in
     let alarms = check_trace tr in
-    let guards = check_guards tr in
+    let guards = check_guards2 tr in
     Printf.fprintf oc "R %d %s %d %s |" !num !name (List.length tr) verdict;
     List.iter (fun (i, a) -> Printf.fprintf oc " %s:%s" (string_of_coqz i) (string_of_coqz a)) alarms;
     Printf.fprintf oc " |";
